@@ -378,8 +378,8 @@ func (idx *RoaringMetadataIndex) queryNumeric(bsiIndex *bsi.BSI, filter Filter) 
 			return nil, err
 		}
 		// v > value  <=>  v >= value and not v <= value (see numericEqual)
-		result := bsiIndex.CompareValue(0, bsi.GE, value, 0, nil)
-		result.AndNot(bsiIndex.CompareValue(0, bsi.LE, value, 0, nil))
+		result := bsiIndex.CompareValue(bsiParallelism, bsi.GE, value, 0, nil)
+		result.AndNot(bsiIndex.CompareValue(bsiParallelism, bsi.LE, value, 0, nil))
 		return result, nil
 
 	case OpGreaterThanOrEqual: // Greater than or equal
@@ -387,7 +387,7 @@ func (idx *RoaringMetadataIndex) queryNumeric(bsiIndex *bsi.BSI, filter Filter) 
 		if err != nil {
 			return nil, err
 		}
-		return bsiIndex.CompareValue(0, bsi.GE, value, 0, nil), nil
+		return bsiIndex.CompareValue(bsiParallelism, bsi.GE, value, 0, nil), nil
 
 	case OpLessThan: // Less than
 		value, err := toInt64(filter.Value)
@@ -395,8 +395,8 @@ func (idx *RoaringMetadataIndex) queryNumeric(bsiIndex *bsi.BSI, filter Filter) 
 			return nil, err
 		}
 		// v < value  <=>  v <= value and not v >= value (see numericEqual)
-		result := bsiIndex.CompareValue(0, bsi.LE, value, 0, nil)
-		result.AndNot(bsiIndex.CompareValue(0, bsi.GE, value, 0, nil))
+		result := bsiIndex.CompareValue(bsiParallelism, bsi.LE, value, 0, nil)
+		result.AndNot(bsiIndex.CompareValue(bsiParallelism, bsi.GE, value, 0, nil))
 		return result, nil
 
 	case OpLessThanOrEqual: // Less than or equal
@@ -404,7 +404,7 @@ func (idx *RoaringMetadataIndex) queryNumeric(bsiIndex *bsi.BSI, filter Filter) 
 		if err != nil {
 			return nil, err
 		}
-		return bsiIndex.CompareValue(0, bsi.LE, value, 0, nil), nil
+		return bsiIndex.CompareValue(bsiParallelism, bsi.LE, value, 0, nil), nil
 
 	case OpRange: // Range query [value, value2]
 		minVal, err := toInt64(filter.Value)
@@ -416,8 +416,8 @@ func (idx *RoaringMetadataIndex) queryNumeric(bsiIndex *bsi.BSI, filter Filter) 
 			return nil, err
 		}
 		// min <= v <= max (see numericEqual)
-		result := bsiIndex.CompareValue(0, bsi.GE, minVal, 0, nil)
-		result.And(bsiIndex.CompareValue(0, bsi.LE, maxVal, 0, nil))
+		result := bsiIndex.CompareValue(bsiParallelism, bsi.GE, minVal, 0, nil)
+		result.And(bsiIndex.CompareValue(bsiParallelism, bsi.LE, maxVal, 0, nil))
 		return result, nil
 
 	case OpNotRange: // Has the field, value outside [value, value2]
@@ -434,6 +434,11 @@ func (idx *RoaringMetadataIndex) queryNumeric(bsiIndex *bsi.BSI, filter Filter) 
 	}
 }
 
+// bsiParallelism is the worker count handed to the BSI comparisons. With more than one
+// worker the BSI's parallel executor occasionally returns a bitmap whose containers are
+// duplicated (the same IDs several times in the result), so comparisons run on one.
+const bsiParallelism = 1
+
 // numericEqual returns the documents whose value equals value.
 //
 // The BSI's EQ, GT, LT and RANGE comparisons are unreliable when stored values and the
@@ -441,8 +446,8 @@ func (idx *RoaringMetadataIndex) queryNumeric(bsiIndex *bsi.BSI, filter Filter) 
 // bound leaks values outside it); GE and LE are correct, so the other numeric operators are
 // expressed through them.
 func numericEqual(bsiIndex *bsi.BSI, value int64) *roaring.Bitmap {
-	result := bsiIndex.CompareValue(0, bsi.GE, value, 0, nil)
-	result.And(bsiIndex.CompareValue(0, bsi.LE, value, 0, nil))
+	result := bsiIndex.CompareValue(bsiParallelism, bsi.GE, value, 0, nil)
+	result.And(bsiIndex.CompareValue(bsiParallelism, bsi.LE, value, 0, nil))
 	return result
 }
 
